@@ -317,6 +317,15 @@ func (s *Scope) bound(name string) bool {
 	return false
 }
 
+// boundHere returns true if the variable has a binding in this scope itself,
+// not considering the parents nor the current package.
+func (s *Scope) boundHere(name string) (has bool) {
+	s.locker.Lock()
+	_, has = s.Vars[strings.ToLower(name)]
+	s.locker.Unlock()
+	return
+}
+
 // Remove a variable binding.
 func (s *Scope) Remove(sym Symbol) bool {
 	return s.remove(strings.ToLower(string(sym)))
